@@ -12,6 +12,7 @@ use std::panic::{catch_unwind, AssertUnwindSafe};
 
 thread_local! {
     static PANIC_INFO: RefCell<Option<(String, String)>> = RefCell::new(None);
+    static ENGINE_LOG: RefCell<Vec<(u64, String)>> = RefCell::new(Vec::new());
 }
 
 /// What one generated case function returns.
@@ -89,10 +90,34 @@ fn main() {
                 let after = case["after"].as_u64().unwrap_or(0) as usize;
                 let budget = case["budget"].as_u64().unwrap_or(2_000_000);
                 PANIC_INFO.with(|p| *p.borrow_mut() = None);
+                ENGINE_LOG.with(|l| l.borrow_mut().clear());
+                if case["engine"].as_bool().unwrap_or(false) {
+                    // engine-level trace validation: the stream skeleton at every iteration of Solver::next
+                    let id2 = id.clone();
+                    proto_vulcan::verif::set_observer(Some(Box::new(move |_what, any| {
+                        type S = proto_vulcan::stream::Stream<
+                            proto_vulcan::user::DefaultUser,
+                            proto_vulcan::engine::DefaultEngine<proto_vulcan::user::DefaultUser>,
+                        >;
+                        if let Some(stream) = any.downcast_ref::<S>() {
+                            let rec = json!({"case": id2, "k": "engine", "tick": pvh::ticks(),
+                                             "skel": pvh::skel::stream_plain(stream)});
+                            ENGINE_LOG.with(|l| l.borrow_mut().push((pvh::ticks(), rec.to_string())));
+                        }
+                    })));
+                }
                 pvh::arm(budget, 0);
                 let res = catch_unwind(AssertUnwindSafe(|| (cf.run)(take, after)));
                 pvh::arm(0, 0);
+                proto_vulcan::verif::set_observer(None);
                 lines.push(json!({"case": id, "k": "reset", "c": case}).to_string());
+                // engine records first (the judge steps the specification's stream through them), the
+                // answers keep their ticks
+                ENGINE_LOG.with(|l| {
+                    for (_, r) in l.borrow_mut().drain(..) {
+                        lines.push(r);
+                    }
+                });
                 match res {
                     Ok(o) => {
                         let n = o.answers.len();
